@@ -32,14 +32,25 @@ struct H {
 }
 
 thread_local! {
-    /// the instant that stands for context value 0 in the deadline (an hour ahead, so nothing is ever expired)
-    static BASE: std::time::Instant = std::time::Instant::now() + std::time::Duration::from_secs(3600);
+    static ANCHOR: std::time::Instant = std::time::Instant::now();
+    /// every other scenario runs with deadlines that have long elapsed (what the wrappers do must not depend on it)
+    static ELAPSED: std::cell::Cell<bool> = const { std::cell::Cell::new(false) };
+    /// the instant that stands for context value 0 in the deadline: an hour ahead, or two hours ago
+    static BASE: std::cell::Cell<Option<std::time::Instant>> = const { std::cell::Cell::new(None) };
+}
+fn base() -> std::time::Instant {
+    let a = ANCHOR.with(|a| *a);
+    if ELAPSED.with(|e| e.get()) {
+        a.checked_sub(std::time::Duration::from_secs(7200)).unwrap_or(a)
+    } else {
+        a + std::time::Duration::from_secs(3600)
+    }
 }
 /// The specification's context value is carried twice: as the trace id and as the deadline (BASE + v seconds), so that a
 /// change to either field that a later hook or the handler does not see shows up as a value the specification never predicts.
 fn ctx_val(ctx: &context::Context) -> u64 {
     let tv = u128::from(ctx.trace_context.trace_id) as u64;
-    let base = BASE.with(|b| *b);
+    let base = base();
     let dv = if ctx.deadline >= base { (ctx.deadline - base).as_secs() } else { 999 };
     if tv == dv {
         tv
@@ -49,7 +60,7 @@ fn ctx_val(ctx: &context::Context) -> u64 {
 }
 fn set_ctx(ctx: &mut context::Context, v: u64) {
     ctx.trace_context.trace_id = trace::TraceId::from(v as u128);
-    ctx.deadline = BASE.with(|b| *b) + std::time::Duration::from_secs(v);
+    ctx.deadline = base() + std::time::Duration::from_secs(v);
 }
 fn res_fields(r: &Result<String, ServerError>) -> (bool, i64) {
     match r {
@@ -212,6 +223,7 @@ pub fn run(a: &Args) -> Value {
         let scn = si as u64 + 1;
         exec::log_begin_scenario(scn);
         let expr = s.cfg.get("expr").cloned().unwrap_or(json!({"k": "base"}));
+        ELAPSED.with(|e| e.set(s.cfg.get("elapsed").and_then(|v| v.as_bool()).unwrap_or(scn % 2 == 0)));
         emit("Reset", json!({"id": s.id, "expr": expr}));
         let mut ops = vec![];
         flatten(&expr, &mut ops);
@@ -226,7 +238,9 @@ pub fn run(a: &Args) -> Value {
             Err(msg) => emit("Panic", json!({"msg": msg})),
         }
         emit("EndScenario", json!({}));
-        index.push(json!({"scn": scn, "id": s.id, "cfg": s.cfg, "steps": []}));
+        let mut cfg = s.cfg.clone();
+        cfg["elapsed"] = json!(ELAPSED.with(|e| e.get()));
+        index.push(json!({"scn": scn, "id": s.id, "cfg": cfg, "steps": []}));
     }
     json!({"family": "hooks", "executed": scheds.len(), "steps": 0, "skipped_steps": 0,
            "mismatches": [], "index": index})
